@@ -46,3 +46,23 @@ package astcomp
 //@   exits any
 //@   assert_before_call TakeRegister#1: spec.fromGetFreeRegister($reg)
 //@   assert_before_call TakeRegister#2: spec.fromGetFreeRegister($reg)
+
+// C01 (fresh variables per iteration, manual 3.3.5: "the loop variables are
+// local to the loop body"): the variables of a generic for are declared in a
+// scope of their own, opened after the loop label and closed (PopContext: the
+// captured ones get ClearReg) before the jump back, so that each iteration gets
+// new cells; the whole statement leaves the scope depth as it found it.
+// Assumed: the statement and block compilers called in between are balanced
+// (they have no contract, so they leave the two ghost counters alone).
+//@ func (*compiler).ProcessForInStat
+//@   prop C01
+//@   arith int
+//@   norte
+//@   nocover
+//@   requires c != nil
+//@   modifies everything()
+//@   exits any
+//@   loop 1: invariant ghost(pushed) == old(ghost(pushed)) + 2 && ghost(popped) == old(ghost(popped))
+//@   assert_before_call CompileStat: ghost(pushed) == old(ghost(pushed)) + 2 && ghost(popped) == old(ghost(popped))
+//@   assert_before_call emitInstr#4: typeis($instr, ir.Jump) && ghost(pushed) == old(ghost(pushed)) + 2 && ghost(popped) == old(ghost(popped)) + 1
+//@   ensures ghost(pushed) == old(ghost(pushed)) + 2 && ghost(popped) == old(ghost(popped)) + 2
